@@ -27,6 +27,7 @@ import Mathlib.Tactic.Linarith
 import QV.Model.Stats
 import QV.Lemmas.Stats
 import QV.Lemmas.Unbiased
+import QV.GenBridge.UpdateStatistics
 
 namespace QV.Props
 namespace C13
@@ -142,6 +143,22 @@ theorem C13_merge (xs ys : List ℝ) (va vb : Option ℝ) (hx : 1 ≤ xs.length)
     push_cast
     rfl
   · simp
+
+/-- **C13.1 for the translated source (translator tie, composed).** The definition TRANSLATED FROM THE PYTHON SOURCE of
+`_update_statistics` (QV/Gen/UpdateStatistics.lean, regenerated from the checked tree on every run), applied to the (mean,
+unbiased variance, count) of two non-empty chunks, returns the (mean, unbiased variance, count) of their concatenation —
+finite values, whatever variance (also nan) is reported for a one-value chunk. -/
+theorem C13_gen_merge (xs ys : List ℝ) (va vb : Option ℝ) (hx : 1 ≤ xs.length) (hy : 1 ≤ ys.length)
+    (hva : 2 ≤ xs.length → va = some (uvar xs)) (hvb : 2 ≤ ys.length → vb = some (uvar ys)) :
+    QV.Gen.UpdateStatistics.updateStatistics (some (mean xs)) va (xs.length : Int) (some (mean ys)) vb (ys.length : Int)
+      = (some (mean (xs ++ ys)), some (uvar (xs ++ ys)), ((xs ++ ys).length : Int)) := by
+  rw [C13_gen_update_eq_model, C13_merge xs ys va vb hx hy hva hvb]
+  rfl
+
+/-- the hypotheses of `C13_gen_merge` are met: [1, 4] merged with the one-value chunk [7] whose variance is nan -/
+example : QV.Gen.UpdateStatistics.updateStatistics (some (mean [1, 4])) (some (uvar [1, 4])) (2 : Int) (some (mean [7])) none (1 : Int)
+    = (some (mean [1, 4, 7]), some (uvar [1, 4, 7]), (3 : Int)) :=
+  C13_gen_merge [1, 4] [7] (some (uvar [1, 4])) none (by simp) (by simp) (fun _ => rfl) (fun h => absurd h (by simp))
 
 /-- **C13.1'** an empty left operand (the state before the first draw) returns the right one; the right one's
 variance is kept only if it is defined. -/
